@@ -563,10 +563,19 @@ class Study:
         trial_id = self._pop_waiting_trial_id()
         if trial_id is None:
             trial_id = self._storage.create_new_trial(self._study_id)
-        trial = optuna.Trial(self, trial_id)
+        try:
+            trial = optuna.Trial(self, trial_id)
 
-        for name, param in fixed_distributions.items():
-            trial._suggest(name, param)
+            for name, param in fixed_distributions.items():
+                trial._suggest(name, param)
+        except (Exception, KeyboardInterrupt):
+            # The trial already exists in the storage: fail it instead of leaving it RUNNING
+            # when the sampler (or a fixed distribution) raises before the trial is handed out.
+            try:
+                self._storage.set_trial_state_values(trial_id, TrialState.FAIL)
+            except Exception:
+                pass
+            raise
 
         return trial
 
